@@ -419,6 +419,15 @@ func c20GoGoConformance(cx *Ctx, r *Report, gogo []*genFile) {
 					r.violate("gogo-unmarshal", key+fmt.Sprintf("|case %d", n), rel(g.path), fmt.Sprintf("%s.Unmarshal handles field number %d which the descriptor does not have", gmsg.goName, n))
 					bad++
 				}
+				// every varint loop of the decoder accepts the full 10-byte encoding: the generator
+				// emits `if shift >= 64 { return ErrIntOverflow }`; a smaller bound rejects the bytes
+				// that the other family (and this one's own Marshal) produce for large values
+				for _, b := range varintShiftBounds(ud.Body) {
+					if b != 64 {
+						r.violate("gogo-unmarshal", key+fmt.Sprintf("|shift>=%d", b), rel(g.path), fmt.Sprintf("%s.Unmarshal has a varint loop bounded by shift >= %d (generated form: 64): values whose encoding needs the last varint byte (e.g. uint64 ≥ 2^63) are rejected, so bytes written by the other family do not decode", gmsg.goName, b))
+						bad++
+					}
+				}
 				if bad == 0 {
 					r.ok("gogo-unmarshal", key, rel(g.path), fmt.Sprintf("case labels and demanded wire types of %s.Unmarshal equal the descriptor", gmsg.goName))
 				}
@@ -523,4 +532,26 @@ func c20PulsarConformance(cx *Ctx, r *Report, api []*genFile) {
 			r.ok("pulsar-fields", a.fd.GetName(), rel(a.path), fmt.Sprintf("%d field names used by the fast-reflection code equal the descriptor's fields", len(fields)))
 		}
 	}
+}
+
+// varintShiftBounds: the literals N of all `shift >= N` tests in a decoder body.
+func varintShiftBounds(body *ast.BlockStmt) []int {
+	var out []int
+	ast.Inspect(body, func(n ast.Node) bool {
+		be, ok := n.(*ast.BinaryExpr)
+		if !ok || be.Op != token.GEQ {
+			return true
+		}
+		x, ok := be.X.(*ast.Ident)
+		if !ok || x.Name != "shift" {
+			return true
+		}
+		if bl, ok := be.Y.(*ast.BasicLit); ok {
+			if v, err := strconv.Atoi(bl.Value); err == nil {
+				out = append(out, v)
+			}
+		}
+		return true
+	})
+	return out
 }
